@@ -47,7 +47,7 @@ Print Assumptions cached_asis_refuted.
    the contract state is the provider's state with the queued operations applied in order. *)
 Theorem batched_transparent : forall l pers (P : prov) R,
   sim wf_op pers P R -> sim wf_op pers (batched l P) (batched_rel l R).
-Proof. intros l pers P R H. apply batched_sim; [exact wf_op_batch|exact H|auto|reflexivity]. Qed.
+Proof. intros l pers P R H. apply batched_sim; [exact wf_op_batch|exact H|auto|reflexivity|reflexivity]. Qed.
 Print Assumptions batched_transparent.
 
 Theorem batched_transparent_over_populated : forall l pers (P : prov) R m a ops,
